@@ -789,7 +789,7 @@ package core
 //@   arith int
 //@   coretypes
 //@   requires b != nil
-//@   ensures a_copy_of_the_bytes: len(b.Data) > 0 ==> fresh(result0.Data) && len(result0.Data) == len(b.Data)
+//@   ensures a_copy_of_the_bytes: len(b.Data) > 0 ==> len(result0.Data) == len(b.Data) && &result0.Data[0] != &b.Data[0]
 //@   ensures byte_for_byte: forall k int :: 0 <= k && k < len(b.Data) ==> result0.Data[k] == b.Data[k]
 
 // ---- a stored class has ONE layout (C07) -------------------------------------------------------------
